@@ -49,9 +49,12 @@ from deap import base, creator, gp  # noqa: E402
 ANCHORS = [("deap/creator.py", []),
            ("deap/base.py", ["Toolbox", "Fitness.__deepcopy__", "ConstrainedFitness.__deepcopy__"]),
            ("deap/gp.py", ["PrimitiveTree.__deepcopy__", "PrimitiveTree.__init__", "Primitive", "Terminal",
-                           "MetaEphemeral"])]
+                           "MetaEphemeral"]),
+           ("deap/tools/init.py", ["initRepeat", "initIterate", "initCycle"])]
 LEVEL = "partial"
-RULE = ("structured enumeration: every base (list, array b/i/d, ndarray int/float/bool and float32/int8/uint8/int16/"
+RULE = ("initialisers: tools.initRepeat / initCycle / initIterate with counting closures x every base (list, array b/i/d, ndarray int/float, set, dict) "
+        "x 8 attribute configurations, 1..3 individuals built consecutively, n in 0..5, 1..3 functions, generator returning list / tuple / iterator; "
+        "structured enumeration: every base (list, array b/i/d, ndarray int/float/bool and float32/int8/uint8/int16/"
         "complex64, set, dict, PrimitiveTree; fitness values incl. non power-of-two weights with values whose weighted "
         "value is not reproduced by values->wvalues, and integers above 2**53; compared bit-exactly) x "
         "fitness invalid/valid x 1..3 objectives x attribute configurations (none, per-instance list/dict/set, "
@@ -1726,6 +1729,9 @@ def eval_tbcls(d):
 
 
 def evaluate(d):
+    if d["k"] == "init":
+        from props import c16_init
+        return c16_init.evaluate(d)
     if d["k"] == "tbcls":
         return eval_tbcls(d)
     if d["k"] == "obj":
@@ -2034,6 +2040,11 @@ def tb_case(rng):
 
 def generate(tier, rng, mult):
     thorough = tier == "thorough"
+    # 0. individuals built by tools.initRepeat / initCycle / initIterate from creator classes of every base, with counting functions
+    #    (props/c16_init.py; theorems initRepeat_calls, initCycle_calls, initIterate_spec, initRepeat_fresh_attrs)
+    from props import c16_init
+    for d in c16_init.generate(tier, rng, mult):
+        yield d
     # 1. class identity across pickling: histories of create / re-create / delete / dump / load over every base
     #    type and every protocol, against Heap.dumpP / loadP / nsRun (theorem pickle_class_independent_of_namespace)
     for rep in range(8 if thorough else 3):
@@ -2101,6 +2112,11 @@ def generate(tier, rng, mult):
 
 
 def shrink(d):
+    if d["k"] == "init":
+        from props import c16_init
+        for e in c16_init.shrink(d):
+            yield e
+        return
     if d["k"] == "fresh":
         cs = d["cases"]
         if len(cs) > 1:
